@@ -83,6 +83,22 @@ fn random_matrix(rng: &mut Rng) -> Matrix4<f32> {
     m
 }
 
+thread_local! {
+    /// evaluator type -> evaluator kept for the whole run of this thread
+    static LONG: std::cell::RefCell<HashMap<std::any::TypeId, Box<dyn std::any::Any>>> = std::cell::RefCell::new(HashMap::new());
+}
+
+/// Runs `f` on this thread's long-lived evaluator of type `T`
+fn with_long<T: 'static, R>(make: impl FnOnce() -> T, f: impl FnOnce(&mut T) -> R) -> R {
+    let mut ev: Box<T> = LONG
+        .with(|m| m.borrow_mut().remove(&std::any::TypeId::of::<T>()))
+        .and_then(|b| b.downcast::<T>().ok())
+        .unwrap_or_else(|| Box::new(make()));
+    let r = f(&mut ev);
+    LONG.with(|m| m.borrow_mut().insert(std::any::TypeId::of::<T>(), ev));
+    r
+}
+
 fn g_eq(a: Grad, b: Grad) -> bool {
     same_bits(a.v, b.v) && same_bits(a.dx, b.dx) && same_bits(a.dy, b.dy) && same_bits(a.dz, b.dz)
 }
@@ -96,7 +112,11 @@ fn check_backend<F: Backend>(
     root: Node,
     rng: &mut Rng,
     st: &mut Stats,
-) -> Result<(), Viol> {
+) -> Result<(), Viol>
+where
+    <F as fidget_core::eval::Function>::PointEval: 'static,
+    <F as fidget_core::eval::Function>::IntervalEval: 'static,
+{
     let name = F::NAME;
     let v = |sig: &str, msg: String, detail: Value| Viol { sig: format!("{name}:{sig}"), msg, detail };
     let shape = Shape::<F>::new(&b.ctx, root).unwrap();
@@ -188,6 +208,16 @@ fn check_backend<F: Backend>(
         st.inc("point_transform_checks");
         if !same_bits(got_t, want_t[0]) {
             return Err(v("point_transform", format!("shape point evaluation with a transform gives {got_t:?}, the function at the transformed position gives {:?}", want_t[0]), setup()));
+        }
+        // the same call through an evaluator that has lived through every
+        // earlier case of this thread (whose shapes, tapes and variable maps
+        // have all been dropped since - their addresses are in use again)
+        let long = with_long(Shape::<F>::new_point_eval, |ev| ev.eval_with_transform_and_vars(&tape, pos[0], pos[1], pos[2], &m, &sv).map(|r| r.0));
+        st.inc("long_lived_point_evaluator_checks");
+        match long {
+            Ok(l) if same_bits(l, got_t) => {}
+            Ok(l) => return Err(v("long_lived_point_eval_binding", format!("a point evaluator used for earlier (dropped) shapes gives {l:?}, a fresh one gives {got_t:?}"), setup())),
+            Err(e) => return Err(v("long_lived_point_eval_error", format!("a point evaluator used for earlier (dropped) shapes fails with {e}, a fresh one succeeds"), setup())),
         }
         if free.is_empty() {
             let g2 = ev.eval(&tape, pos[0], pos[1], pos[2]).map(|r| r.0).map_err(|e| v("point_error", e.to_string(), setup()))?;
@@ -451,6 +481,17 @@ fn check_backend<F: Backend>(
         let mut ev = Shape::<F>::new_interval_eval();
         child::note(&format!("C14 {name} shape interval eval | program {:016x}", p.hash()));
         let r = guarded(|| ev.eval_with_transform_and_vars(&tape, iv(0), iv(1), iv(2), &m, &sv).map(|r| r.0));
+        // long-lived interval evaluator (see the point evaluator above)
+        if let Ok(Ok(fresh)) = &r {
+            let long = guarded(|| with_long(Shape::<F>::new_interval_eval, |ev| ev.eval_with_transform_and_vars(&tape, iv(0), iv(1), iv(2), &m, &sv).map(|r| r.0)));
+            st.inc("long_lived_interval_evaluator_checks");
+            match long {
+                Ok(Ok(l)) if i_eq(l, *fresh) => {}
+                Ok(Ok(l)) => return Err(v("long_lived_interval_eval_binding", format!("an interval evaluator used for earlier (dropped) shapes gives {l:?}, a fresh one gives {fresh:?}"), setup())),
+                Ok(Err(e)) => return Err(v("long_lived_interval_eval_error", format!("an interval evaluator used for earlier (dropped) shapes fails with {e}, a fresh one succeeds"), setup())),
+                Err(_) => st.inc("long_lived_interval_eval_panicked"),
+            }
+        }
         let mut tin = vec![];
         for s in &ax_shapes {
             let t = s.interval_tape(Default::default());
